@@ -100,7 +100,7 @@ def run(res, replay=None):
             else:
                 x = [c[k] + scale * rng.uniform(-2, 2) for k in range(3)]
             cases.append({"op": op, "args": [c, x], "radius": r, "scale": scale, "off": off})
-    wd = os.path.join(C.CACHE, "run", "c19")
+    wd = C.rundir("c19")
     os.makedirs(wd, exist_ok=True)
     cf = os.path.join(wd, "geom.cases")
     with open(cf, "w") as f:
